@@ -235,6 +235,10 @@ class Folder:
             return self._call(node, mod, depth, local)
         if isinstance(node, ast.GeneratorExp) or isinstance(node, ast.ListComp):
             return list(self._comp(node, mod, depth, local))
+        if isinstance(node, ast.DictComp):
+            pair = ast.Tuple(elts=[node.key, node.value], ctx=ast.Load())
+            fake = ast.ListComp(elt=pair, generators=node.generators)
+            return {k: v for k, v in self._comp(fake, mod, depth, local)}
         if isinstance(node, ast.JoinedStr):
             raise NotConst("f-string")
         raise NotConst("expr " + type(node).__name__)
@@ -244,11 +248,20 @@ class Folder:
             raise NotConst("nested comprehension")
         g = node.generators[0]
         it = self.ev(g.iter, mod, depth + 1, local)
-        if not isinstance(g.target, ast.Name):
+        names = None
+        if isinstance(g.target, (ast.Tuple, ast.List)) and all(isinstance(e_, ast.Name) for e_ in g.target.elts):
+            names = [e_.id for e_ in g.target.elts]
+        elif not isinstance(g.target, ast.Name):
             raise NotConst("comp target")
         for x in it:
-            l2 = dict(local)
-            l2[g.target.id] = x
+            l2 = dict(local or {})
+            if names is not None:
+                xs = tuple(x)
+                if len(xs) != len(names):
+                    raise NotConst("comp unpack")
+                l2.update(zip(names, xs))
+            else:
+                l2[g.target.id] = x
             if all(self.ev(c, mod, depth + 1, l2) for c in g.ifs):
                 yield self.ev(node.elt, mod, depth + 1, l2)
 
